@@ -40,6 +40,28 @@ pub(crate) struct RingState { pub origin: u32, pub len: u32, pub resv: u32 }
     h == s.origin && dh == s.origin && t == s.origin.wrapping_add(s.len) && et == t.wrapping_add(s.resv)
 }
 
+/// Uniform access to the abstract state of both ring buffers, used by the harnesses of everything built on top of them
+/// (pool allocator free lists, zero-copy queues, channels). `force` puts the ring in the quiescent state
+/// "seq = content[(origin+k) % N] for k < len"; `snapshot` reads it back (only meaningful when `quiescent()`).
+#[allow(dead_code)] pub(crate) trait RingModel<const N: usize> {
+    fn force(&self, origin: u32, len: u32, content: [u32; N]);
+    fn snapshot(&self) -> (u32, u32, [u32; N]);
+    fn quiescent(&self) -> bool;
+    /// k-th element of the abstract sequence
+    fn seq_at(&self, k: u32) -> u32 { let (o, _l, c) = self.snapshot(); c[o.wrapping_add(k) as usize % N] }
+}
+impl<const N: usize> RingModel<N> for AtomicMove<u32, N> {
+    fn force(&self, origin: u32, len: u32, content: [u32; N]) {
+        set_counters(self, RingState { origin, len, resv: 0 });
+        unsafe { *raw_buffer(self) = content; }
+    }
+    fn snapshot(&self) -> (u32, u32, [u32; N]) {
+        let (h, _dh, t, _et) = counters(self);
+        (h, t.wrapping_sub(h), unsafe { *raw_buffer(self) })
+    }
+    fn quiescent(&self) -> bool { let (h, dh, t, et) = counters(self); h == dh && t == et && t.wrapping_sub(h) <= N as u32 }
+}
+
 #[cfg(kani)]
 mod proofs {
     use super::*;
